@@ -77,6 +77,18 @@ pub fn run(tier: &str, seed: u64) -> Report {
         root_sets.push(vec![a, b]);
       }
     }
+    // all the original roots and one more module; all but one of the original roots
+    {
+      let non_roots: Vec<&ModuleSpecifier> = module_keys.iter().filter(|k| !g.roots.contains(*k)).collect();
+      if !non_roots.is_empty() {
+        let mut v: Vec<ModuleSpecifier> = g.roots.iter().cloned().collect();
+        v.push((*rng.pick(&non_roots)).clone());
+        root_sets.push(v);
+      }
+      if g.roots.len() >= 2 {
+        root_sets.push(g.roots.iter().skip(1).cloned().collect());
+      }
+    }
     let in_scope = !cfg.allow_inconsistent_finals && same_attribute_proviso(&w);
     // F19: a types-only walk replaces an untyped module that has a types dependency by that
     // dependency, so a types-only segment does not contain the module itself
@@ -88,6 +100,16 @@ pub fn run(tier: &str, seed: u64) -> Report {
       let ids: Vec<String> = roots.iter().map(|r| ctx.spec(r).to_string()).collect();
       batch.push(format!("(segment (roots {}))", ids.join(" ")), seg_line(&mut ctx, &seg), false);
       let desc = json!({"world": w.describe(), "segment_roots": roots.iter().map(|r| r.as_str()).collect::<Vec<_>>()});
+      // for roots that were not all roots of the original, the segment is a graph of exactly the requested
+      // roots (for roots of the original the code hands back a clone of the whole graph, which the
+      // statement allows: it then only has to be self-contained)
+      if !roots.iter().all(|r| g.roots.contains(r)) {
+        let want: BTreeSet<&ModuleSpecifier> = roots.iter().collect();
+        let got: BTreeSet<&ModuleSpecifier> = seg.roots.iter().collect();
+        if want != got {
+          report.fail("oracle", "segment-roots-differ-from-requested", format!("requested {:?}, the segment's roots are {:?}", want.iter().map(|r| r.as_str()).collect::<Vec<_>>(), got.iter().map(|r| r.as_str()).collect::<Vec<_>>()), desc.clone());
+        }
+      }
       // ---- self-contained -----------------------------------------------------------------
       for m in seg.modules() {
         // the walk skips an untyped module with a types dependency in a types-only graph; everything
